@@ -102,10 +102,16 @@ def build_sandbox(root, rng, placement, opts_on):
         if opts_on.get("copy_subdir"):
             opts["copy_subdir"] = ["shared"]
     if opts_on.get("media_dir"):
-        os.makedirs(os.path.join(proj, "media", "deep"))
-        open(os.path.join(proj, "media", "logo.png"), "wb").write(b"PNG2")
-        open(os.path.join(proj, "media", "deep", "x.bin"), "wb").write(b"\x00\x01")
-        opts["media_dir"] = "./media"
+        mrel = "docs/assets/media" if opts_on.get("deep_media") else "media"
+        os.makedirs(os.path.join(proj, mrel, "deep"))
+        open(os.path.join(proj, mrel, "logo.png"), "wb").write(b"PNG2")
+        open(os.path.join(proj, mrel, "deep", "x.bin"), "wb").write(b"\x00\x01")
+        if opts_on.get("deep_media"):
+            # relative links that are valid where they stand (a file of the project, a file beside it) and would point elsewhere from <output>/media
+            open(os.path.join(proj, "big_original.png"), "wb").write(b"PNG-BIG")
+            os.symlink("../../../big_original.png", os.path.join(proj, mrel, "big.png"))
+            os.symlink("../../../../bystander/keep.txt", os.path.join(proj, mrel, "deep", "kept.txt"))
+        opts["media_dir"] = "./" + mrel
     if opts_on.get("css"):
         open(os.path.join(proj, "custom.css"), "w").write("h1{color:red}\n")
         opts["css"] = "./custom.css"
@@ -149,6 +155,11 @@ def build_sandbox(root, rng, placement, opts_on):
         open(os.path.join(out, "random.f90"), "w").write("module stale_mod\nend module stale_mod\n")
         os.makedirs(out + ".old")
         open(os.path.join(out + ".old", "keep.txt"), "w").write("an older copy the user keeps\n")
+        # the stale output holds a link to a directory outside it (older documentation kept reachable)
+        os.makedirs(os.path.join(root, "archive_v1", "sub"))
+        open(os.path.join(root, "archive_v1", "index.html"), "w").write("<html>v1</html>")
+        open(os.path.join(root, "archive_v1", "sub", "page.html"), "w").write("<html>v1 sub</html>")
+        os.symlink(os.path.join("..", "..", "archive_v1"), os.path.join(out, "v1"))
         opts["output_dir"] = "./doc"
         allowed.append(out)
     elif placement == "equals_src":
@@ -174,6 +185,10 @@ def build_sandbox(root, rng, placement, opts_on):
         open(os.path.join(root, "common", "sub", "b.f90"), "w").write("module cmod_common_b\n!! doc\nend module cmod_common_b\n")
         sd = opts["src_dir"] if isinstance(opts["src_dir"], list) else [opts["src_dir"]]
         opts["src_dir"] = sd + ["../common"]
+    if opts_on.get("bad_preprocessor"):
+        # the start-up check of the preprocessor fails: the run ends there, and nothing may be left behind
+        opts["preprocess"] = True
+        opts["preprocessor"] = rng.choice(["vf_no_such_preprocessor -E", "false"])
     if opts_on.get("force"):
         opts["force"] = True  # "try to continue past errors" is no licence to delete sources
     if opts.get("graph") and opts_on.get("graph_dir"):
@@ -267,6 +282,8 @@ def case(arg):
         opts_on["outside_src"] = rng.random() < 0.4
         opts_on["linked_page_subdir"] = rng.random() < 0.4
         opts_on["force"] = rng.random() < 0.5
+        opts_on["deep_media"] = rng.random() < 0.5
+        opts_on["bad_preprocessor"] = mode == "plain" and rng.random() < 0.3
         opts_on["graph_dir"] = [None, "sibling", "in_output", "absolute", "contains_sources"][seed % 5]
         if opts_on["graph_dir"] and rng.random() < 0.8:
             opts_on["graph"] = True
@@ -339,7 +356,7 @@ def case(arg):
             if rc == 0 or inside:
                 viol.append({"kf": {"kind": "source_inside_output_not_refused_first", "ran_to_completion": rc == 0, **cfg},
                              "w": {"seed": seed, "rc": rc, "events_in_sandbox": inside[:5], "options": opts, "output_tail": out[-500:]}})
-        elif mode == "plain" and rc != 0:
+        elif mode == "plain" and rc != 0 and not opts_on.get("bad_preprocessor"):
             # not a confinement violation, but the case did not exercise the write-out as intended
             return {"viol": viol, "inconclusive": "run without injected fault exited %r: %s" % (rc, out[-300:].replace("\n", " | ")), "cfg": cfg, "nmut": nmut, "key": "", "sample": None, "injected": 0}
         # strace: writes by any child process
